@@ -387,7 +387,7 @@ def _binary_operator_names():
 
 OPNAMES = _binary_operator_names()
 OPBOX = [(n,) for n in OPNAMES]
-OPVALS = [1, 2, 'a', 'ab', None, (1, 2), 2.5]
+OPVALS = [1, 2, 'a', 'ab', None, (1, 2), 2.5, frozenset([1, 2]), frozenset([2])]
 VBOX = [(i,) for i in range(len(OPVALS))]
 
 
@@ -423,6 +423,8 @@ def operator_call(o: int, i: int, j: int) -> bool:
         base = outcome('call($n, [$a, $b], {})', v)
         infix = outcome('$a %s $b' % name[len('#operator_'):], v)
         ok = base[0] == infix[0] and (same_value(base[1], infix[1]) if base[0] == 'ok' else base[1] == infix[1])
+        # operators are functions: the method spelling of an operator name reaches nothing, whatever the operands
+        ok = ok and outcome('call($n, [$b], {}, $a)', v) == ('err', 'NoMethodRegisteredException')
         if not ok or other_shape_accepts(name, a, b):
             pass        # an overload with other parameter names (e.g. concat(*args) as '+') takes this call: nothing to compare
         elif base[0] == 'ok' or base[1] in ('NoMatchingFunctionException',):
